@@ -251,11 +251,21 @@ def run(ctx):
         d = {f.key: f for f in fl}
         for cb, fld, prm in (('cbDomain', 'domain', 2), ('cbUserName', 'userName', 3), ('cbPassword', 'password', 4)):
             e = d[fld].expr
+            # whatever the buffer idiom (push(0) twice, extend_from_slice(&[0, 0]), [s, &[0, 0]].concat()): first piece = to_unicode(param), then zero bytes
+            parts = byte_parts(e)
             pushes = []
-            x = unwrap_cast(e)
-            while x[0] == 'mutated' and x[1].endswith('::push'):
-                pushes.append(fold(x[4][1])[1] if len(x) > 4 and len(x[4]) > 1 else None)
-                x = unwrap_cast(x[3])
+            for p_ in parts[1:]:
+                p_ = unwrap_cast(p_)
+                if p_[0] == 'agg' and p_[1] == 'array':
+                    pushes.extend(fold(o)[1] if fold(o)[0] == 'const' else None for o in p_[3])
+                elif p_[0] == 'repeat':
+                    try:
+                        pushes.extend([fold(p_[1])[1]] * int(str(p_[2]).split('_')[0]))
+                    except ValueError:
+                        pushes.append(None)
+                else:
+                    pushes.append(fold(p_)[1] if fold(p_)[0] == 'const' else None)
+            x = unwrap_cast(parts[0]) if parts else ('unknown',)
             base_ok = x[0] == 'call' and x[1].endswith('to_unicode') and ('param', prm) in list(walk(x))
             ctx.check(pushes == [0, 0] and base_ok, 'R04.4', 'infos:%s:terminator' % fld,
                       'Client Info %s = UTF-16LE(parameter %d) followed by a two-byte null terminator' % (fld, prm), sh.body.where(),
